@@ -201,6 +201,8 @@ class ExprBuilder:
             return ("zst", c["ty"])
         if d:
             return ("constitem", d)
+        if c.get("param"):
+            return ("cparam", c["param"], c["ty"])
         return ("unk", "const:" + c["ty"])
 
     def promoted(self, idx):
@@ -559,6 +561,8 @@ def _show(e, depth=0):
         return "[%s; %s]" % (show(e[1], d), e[2])
     if t == "constitem":
         return "{%s}" % e[1]
+    if t == "cparam":
+        return e[1]
     return "<%s>" % (":".join(str(x) for x in e[:2]))
 
 
@@ -591,7 +595,7 @@ def walk(e):
 
 
 def leaves(e):
-    return [x for x in walk(e) if x[0] in ("arg", "var", "upvar", "c", "s", "fn", "constitem", "tls", "unk")]
+    return [x for x in walk(e) if x[0] in ("arg", "var", "upvar", "c", "s", "fn", "constitem", "cparam", "tls", "unk")]
 
 
 def mentions(e, pred):
